@@ -38,6 +38,7 @@ type c17Replay struct {
 	Mode    string `json:"mode,omitempty"`
 	Byte    string `json:"byte_at_pos,omitempty"`
 	History string `json:"calls_on_the_error_value,omitempty"`
+	Stale   string `json:"state_carried_by_the_returned_error,omitempty"`
 }
 
 func c17IsSpace(b byte) bool { return b == ' ' || (b >= 9 && b <= 13) }
@@ -234,6 +235,20 @@ func c17Emit(e *emitter, origin string, err error, q string, pad int, base, edit
 				rp.Panic = fmt.Sprint(r)
 			}
 		}()
+		// an error handed out by the library is a FRESH value: no query bound yet, the default
+		// padding (a value shared between statements would carry the last caller's settings)
+		if origin == "build" || origin == "exec" {
+			switch x := err.(type) {
+			case *kvql.SyntaxError:
+				if x.Query != "" || x.Padding != kvql.DefaultErrorPadding {
+					rp.Stale = fmt.Sprintf("as returned: Query=%q Padding=%d (default %d)", x.Query, x.Padding, kvql.DefaultErrorPadding)
+				}
+			case *kvql.ExecuteError:
+				if x.Query != "" || x.Padding != kvql.DefaultErrorPadding {
+					rp.Stale = fmt.Sprintf("as returned: Query=%q Padding=%d (default %d)", x.Query, x.Padding, kvql.DefaultErrorPadding)
+				}
+			}
+		}
 		// the rendering is a function of the query and padding bound NOW: a quarter of the cases
 		// each reach that state through another history of calls on the same error value
 		c17History++
@@ -343,6 +358,10 @@ func c17Emit(e *emitter, origin string, err error, q string, pad int, base, edit
 	}
 
 	// direct verdicts on the implementation
+	if rp.Stale != "" {
+		e.fail(idx, "a positional error returned by the library already carries a bound query or a non-default padding ("+rp.Stale+"): rendered the documented way (BindQuery, then Error) it shows another statement's settings", "C17/stale-error-value", rp)
+		return
+	}
 	if rp.Panic != "" {
 		e.fail(idx, "rendering the error panicked: "+rp.Panic, "C17/render-panic", rp)
 		return
@@ -391,6 +410,14 @@ func c17Text(n, variant int) string {
 			if b[i] == '%' && i+1 < n-1 {
 				b[i+1] = "sd%v2"[(i/11)%5]
 			}
+		}
+	}
+	if variant == 1 && n > 70 {
+		// multi-byte characters spread over the text (2-, 3- and 4-byte sequences), so that the
+		// cut points of a 70-byte excerpt fall inside / next to them for some position
+		mb := []string{"\u00e9", "\u65e5", "\U0001F600", "\u00fc"}
+		for i, k := 7, 0; i+4 < n-1; i, k = i+13, k+1 {
+			copy(b[i:], mb[k%4])
 		}
 	}
 	if variant == 2 && n >= 6 {
@@ -1078,10 +1105,31 @@ func runC17Statements(c *runCtx, e *emitter) {
 	}
 }
 
+// c17MultiByte: statements longer than 70 bytes whose literals hold multi-byte UTF-8 text at every
+// distance 30..40 bytes before a failing token (the left cut of the excerpt is 35 bytes before
+// the offset: it may fall inside a character; the caret must stay under the offset's byte)
+func c17MultiByte(e *emitter) {
+	mbs := []string{"h\u00e9llo", "\u65e5\u672c\u8a9e", "\U0001F600\U0001F600", "na\u00efve caf\u00e9"}
+	k := 0
+	for _, mb := range mbs {
+		for fill := 24; fill <= 36; fill++ {
+			k++
+			pad := strings.Repeat("x", fill)
+			// syntax error late in a long statement (the stray `)`), run-time error (division by zero)
+			q1 := "select * where key ^= 'k' & value != '" + mb + "' & upper(key) != '" + pad + "' & value = ) & key != 'a long tail of the statement'"
+			q2 := "select key, 10 / (strlen('" + mb + "') - strlen('" + mb + "')) + strlen('" + pad + "') as d where key ^= 'k' & value != 'a long tail of the statement'"
+			for _, q := range []string{q1, q2} {
+				c17Run(e, q, []string{"", "  "}[k%2], "", []int{0, 7, 12}[k%3], q, "multi-byte literal before the fault")
+			}
+		}
+	}
+}
+
 func runC17(c *runCtx) error {
 	e := newEmitter(c.out, "C17", "From Coq Require Import List String ZArith.\nFrom KV Require Import Base.Bytes Model.Ast Corr.C17.\nImport ListNotations.\nOpen Scope string_scope.\n", 700)
 	e.m.Rule = "part A: SyntaxError/ExecuteError built by the harness for the grid (trimmed length, position incl. -1 and out-of-range, leading white space 0/1/3/40/tab-newline, trailing 0/2/newline, padding 0/7/12/-3); part B: positional errors returned by BuildPlan/Next/Batch for generated statements, their single-edit corruptions and run-time failing statements x leading 0/1/3/40 x trailing 0/2 x padding 0/7/12. non-trivial = the caret verdict applies (pos = -1 or a non-blank byte, padding >= 0) and the error came from the library or the query has leading white space or more than 70 bytes after trimming; distinct = distinct Gallina case terms"
 	runC17Statements(c, e)
+	c17MultiByte(e)
 	runC17Grid(c, e)
 	runC17PA(c, e)
 	t3Stream(c, e)
